@@ -110,7 +110,7 @@ impl Setters {
         let is_sinc = cfg.kind.is_sinc();
         let mut twin_ok = true;
         for c in 0..n_calls {
-            let which = rng.ui(0, 9);
+            let which = rng.ui(0, 10);
             let which = if boxed && which >= 7 { which - 7 } else { which };
             let ramp = rng.bool();
             if which < 4 {
@@ -216,6 +216,14 @@ impl Setters {
                         cr.viols.push(Viol::new("C12", "rejected_call_changed_getters", format!("call {}: {:?} -> {:?}", c, so.before, so.after)));
                     }
                 }
+            }
+            if which == 10 {
+                // reset() on both twins: the documented intervals and the construction-time chunk size apply
+                // again, whatever was set before
+                script.push(Op::Reset.json());
+                a.step(&Op::Reset);
+                b.step(&Op::Reset);
+                st.add("resets_between_setter_calls", 1.0);
             }
             if !cr.viols.is_empty() {
                 break;
